@@ -94,6 +94,8 @@ def main(argv=None):
     ap.add_argument('--update-baseline', action='store_true')
     args = ap.parse_args(argv)
     assemble.REPO = args.repo
+    if args.update_baseline:
+        assemble.USE_BASELINE_LOOPS = False
     pid = args.prop
     props = load_json(os.path.join(VERIF, 'specs', 'properties.json'))
     if pid not in props:
